@@ -1,2 +1,207 @@
-(* C13 — stub: no theorems yet *)
+(* C13 -- zap's writers and WriteSyncer combinators honour the io.Writer contract.
+   Only statements closed by [exact]; the proofs are in C13/{Multi,Comb,Writers,Mutex,Proofs}.v.
+   [write Fixed] / [stdlog_write Fixed] model the repaired code (fix: commits in /repo);
+   [Orig] is the code as it was, kept to document the two defects (…_orig_refuted). *)
+From Coq Require Import List ZArith Bool.
+From Coq.Strings Require Import Byte.
+Import ListNotations.
 From Zap Require Import Base.Wire C13.Model C13.Proofs.
+Local Open Scope Z_scope.
+
+(* ---- multi-WriteSyncer: every number and order of sinks, every outcome vector ---- *)
+
+(* identical bytes to every sink, once each, in order, whatever the sinks return *)
+Theorem C13_multi_bytes : forall v (l : list sink) p,
+  w_ev (write v (multi_of l) p) = map (fun s => EWrite (s_id s) p) l.
+Proof. exact multi_bytes. Qed.
+Print Assumptions C13_multi_bytes.
+
+(* the smallest count any sink reported (sinks within the io.Writer contract 0 <= n <= len p) *)
+Theorem C13_multi_min : forall (l : list sink) p, (forall s, In s l -> 0 <= s_n s <= zlen p) ->
+  w_n (write Fixed (multi_of l) p) = smallest (zlen p) (map s_n l).
+Proof. exact multi_min_fixed. Qed.
+Print Assumptions C13_multi_min.
+
+(* ... which is a count some sink reported, and no sink reported less *)
+Theorem C13_multi_min_char : forall (l : list sink) p, l <> [] -> (forall s, In s l -> s_n s <= zlen p) ->
+  let n := w_n (write Fixed (multi_of l) p) in
+  In n (map s_n l) /\ (forall s, In s l -> n <= s_n s).
+Proof. exact multi_min_char. Qed.
+Print Assumptions C13_multi_min_char.
+
+(* no assumption on the sinks at all: min(len p, all counts); a single sink is returned as is *)
+Theorem C13_multi_count_general : forall (l : list sink) p,
+  w_n (write Fixed (multi_of l) p) =
+  match l with [s] => s_n s | _ => Z.min (zlen p) (smallest (zlen p) (map s_n l)) end.
+Proof. exact multi_count_general. Qed.
+Print Assumptions C13_multi_count_general.
+
+(* pre-fix behaviour (DESIGN section 6 #1): the fold "nWritten == 0 && n != 0" does not compute the minimum *)
+Theorem C13_multi_min_orig_refuted : ~ multi_min_stmt Orig.
+Proof. exact multi_min_orig_refuted. Qed.
+Print Assumptions C13_multi_min_orig_refuted.
+
+(* the witnesses, on the original fold: counts [0,5] and [3,0,5] report 5 although a sink took 0 bytes;
+   no sink at all: a short count with a nil error *)
+Theorem C13_multi_min_orig_witness :
+  write_orig (multi_of [sk 1 0; sk 2 5]) hello = (5, [], [EWrite 1 hello; EWrite 2 hello]) /\
+  smallest (zlen hello) [0; 5] = 0 /\
+  w_n (write_orig (multi_of [sk 1 3; sk 2 0; sk 3 5]) hello) = 5 /\
+  write_orig (multi_of []) hello = (0, [], []).
+Proof. exact (conj eq_refl (conj eq_refl (conj multi_min_orig_refuted_305 multi_empty_orig_short))). Qed.
+Print Assumptions C13_multi_min_orig_witness.
+
+(* all errors of all sinks, in order (nil iff every sink returned nil) *)
+Theorem C13_multi_errs : forall v (l : list sink) p, w_e (write v (multi_of l) p) = concat (map s_we l).
+Proof. exact multi_errs. Qed.
+Print Assumptions C13_multi_errs.
+
+(* Sync reaches every sink once, in order, and returns all their errors *)
+Theorem C13_multi_sync : forall (l : list sink),
+  sync (multi_of l) = (concat (map s_se l), map (fun s => ESync (s_id s)) l).
+Proof. exact multi_sync. Qed.
+Print Assumptions C13_multi_sync.
+
+(* the multi-syncer itself honours the contract: never a short count with a nil error when the
+   short sinks report errors; (len p, nil) when every sink accepted p -- also with no sink *)
+Theorem C13_multi_contract : forall (l : list sink) p, (forall s, In s l -> s_n s <= zlen p) ->
+  (forall s, In s l -> s_n s < zlen p -> s_we s <> []) ->
+  let r := write Fixed (multi_of l) p in w_n r < zlen p -> w_e r <> [].
+Proof. exact multi_contract. Qed.
+Print Assumptions C13_multi_contract.
+
+Theorem C13_multi_full_accept : forall (l : list sink) p, (forall s, In s l -> s_n s = zlen p /\ s_we s = []) ->
+  let r := write Fixed (multi_of l) p in w_n r = zlen p /\ w_e r = [].
+Proof. exact multi_full_accept. Qed.
+Print Assumptions C13_multi_full_accept.
+
+(* ---- AddSync, Lock, NewMultiWriteSyncer(w): relay ---- *)
+Theorem C13_relay :
+  (forall v w p, write v (add_sync w) p = write v w p) /\
+  (forall v w p, w_n (write v (lock w) p) = w_n (write v w p) /\ w_e (write v (lock w) p) = w_e (write v w p)) /\
+  (forall v w p, observe 0 (w_ev (write v (lock w) p)) =
+                 if is_locked w then observe 0 (w_ev (write v w p)) else observe 1 (w_ev (write v w p))) /\
+  (forall w, fst (sync (lock w)) = fst (sync w)) /\
+  (forall w, lock (lock w) = lock w) /\
+  (forall w, is_syncer w = true -> add_sync w = w) /\
+  (forall w, is_syncer w = false -> sync (add_sync w) = ([], []) /\ is_syncer (add_sync w) = true) /\
+  (forall w, new_multi [w] = w).
+Proof. exact relay_thm. Qed.
+Print Assumptions C13_relay.
+
+(* every object built from sinks by any nesting of AddSync / Lock / NewMultiWriteSyncer /
+   CombineWriteSyncers: same bytes to every sink once in order, smallest count, all errors, Sync
+   reaches every sink that has one, exactly one mutex per effective Lock; Go's typing is preserved *)
+Theorem C13_combinators : forall p e, x_typed e = true -> x_dom (zlen p) e = true -> forall d,
+  (w_n (write Fixed (eval e) p), w_e (write Fixed (eval e) p), observe d (w_ev (write Fixed (eval e) p)))
+    = ref_write e p d /\
+  (fst (sync (eval e)), observe d (snd (sync (eval e)))) = ref_sync e d /\
+  well_typed (eval e) = true /\ is_syncer (eval e) = x_syncer e.
+Proof. exact comb_thm. Qed.
+Print Assumptions C13_combinators.
+
+(* ---- Lock: mutual exclusion under every schedule ---- *)
+(* any number of threads, any sequence of Write (0) / Sync (1) calls per thread through one
+   Lock(sink), any schedule: no two wrapped calls overlap; the sink's in-flight counter never exceeds 1 *)
+Theorem C13_lock_mutex : forall (prog : list (list Z)) (sched : list nat),
+  let s := run (locked_prog prog) sched in
+  ~ overlap (locked_prog prog) s /\ (maxc s <= 1)%nat /\ (cur s <= 1)%nat.
+Proof. exact lock_mutex_prog. Qed.
+Print Assumptions C13_lock_mutex.
+
+(* the same for any thread code that uses the one lock well-bracketed with its calls inside *)
+Theorem C13_lock_mutex_general : forall codes, (forall t, wb Out (codes t) = true) -> forall sched,
+  ~ overlap codes (run codes sched) /\ (maxc (run codes sched) <= 1)%nat /\ (cur (run codes sched) <= 1)%nat.
+Proof. exact lock_mutex. Qed.
+Print Assumptions C13_lock_mutex_general.
+
+(* the model can express the failure: without Lock two calls do overlap *)
+Theorem C13_lock_mutex_unlocked_refuted :
+  exists prog sched, overlap (unlocked_prog prog) (run (unlocked_prog prog) sched) /\
+                     maxc (run (unlocked_prog prog) sched) = 2%nat.
+Proof. exact unlocked_refuted. Qed.
+Print Assumptions C13_lock_mutex_unlocked_refuted.
+
+(* ---- the writers zap implements: (len p, nil) when p was accepted ---- *)
+Theorem C13_full_accept :
+  (* std-log bridge: any payload, enabled or not *)
+  stdlog_accept_stmt Fixed /\
+  (* TestingWriter: len p, nil; logs p without its trailing newlines; fails the test iff asked *)
+  (forall mf p, testing_write mf p = (zlen p, 0, [trim_right_nl p], mf) /\ stripped (trim_right_nl p) p = true) /\
+  (* zapio.Writer: every Write of any sequence on one writer *)
+  (forall en ps, zapio_writes en ps = map zlen ps) /\
+  (* BufferedWriteSyncer over an accepting sink: every Write of every history of Write/Sync/Stop,
+     every buffer size; what reached the sink is a prefix of what was written *)
+  (forall size ops, 0 <= size ->
+     fst (bws_run (eff_size size) bws0 ops) = bop_lens ops /\
+     exists rest, sink_of (snd (bws_run (eff_size size) bws0 ops)) ++ rest = bop_bytes ops).
+Proof.
+  exact (conj stdlog_accept_fixed
+        (conj (fun mf p => conj (testing_accept mf p) (testing_stripped p))
+        (conj zapio_accept
+              (fun size ops H => bws_run_spec (eff_size size) (eff_size_pos size H) ops bws0
+                                   (Z.lt_le_incl _ _ (eff_size_pos size H)))))).
+Qed.
+Print Assumptions C13_full_accept.
+
+(* pre-fix behaviour (DESIGN section 6 #2): "  hello \n" returned (5, nil) for a 9-byte write *)
+Theorem C13_full_accept_stdlog_orig_refuted : ~ stdlog_accept_stmt Orig.
+Proof. exact stdlog_accept_orig_refuted. Qed.
+Print Assumptions C13_full_accept_stdlog_orig_refuted.
+
+Theorem C13_full_accept_stdlog_orig_witness :
+  stdlog_write_orig true sp_hello_nl [] = (5, 0, [hello]) /\ zlen sp_hello_nl = 9.
+Proof. exact stdlog_orig_witness. Qed.
+Print Assumptions C13_full_accept_stdlog_orig_witness.
+
+(* what the bridge logs for ASCII payloads: p without the white space around it *)
+Theorem C13_stdlog_message : forall p,
+  exists a b, p = a ++ trim2 ascii_space p ++ b /\ forallb ascii_space a = true /\ forallb ascii_space b = true /\
+    (forall x r, trim2 ascii_space p = x :: r -> ascii_space x = false) /\
+    (forall x r, rev (trim2 ascii_space p) = x :: r -> ascii_space x = false).
+Proof. exact (trim2_spec ascii_space). Qed.
+Print Assumptions C13_stdlog_message.
+Theorem C13_stdlog_message_is_trim : forall p, ascii_trim p = trim2 ascii_space p.
+Proof. exact ascii_trim_trim2. Qed.
+Print Assumptions C13_stdlog_message_is_trim.
+
+(* ---- the oracle run by the driver is the proved property ---- *)
+Theorem C13_wire : forall i, wf i = true -> spec i (model i) = true.
+Proof. exact spec_model. Qed.
+Print Assumptions C13_wire.
+
+(* ---- non-vacuity ---- *)
+(* counts [3,0,5] with the middle sink failing: 0 and that error; before the fix: 5 *)
+Example C13_ex_multi :
+  let l := [sk 1 3; {| s_id := 2; s_n := 0; s_we := [21]; s_se := [22] |}; sk 3 5] in
+  write Fixed (multi_of l) hello = (0, [21], [EWrite 1 hello; EWrite 2 hello; EWrite 3 hello]) /\
+  w_n (write Orig (multi_of l) hello) = 5 /\
+  sync (multi_of l) = ([22], [ESync 1; ESync 2; ESync 3]) /\
+  (forall s, In s l -> 0 <= s_n s <= zlen hello).
+Proof.
+  intros l. split; [vm_compute; reflexivity|]. split; [vm_compute; reflexivity|]. split; [vm_compute; reflexivity|].
+  intros s [<-|[<-|[<-|[]]]]; vm_compute; split; discriminate.
+Qed.
+(* Lock(AddSync(Lock(sink))) is one mutex; CombineWriteSyncers of two sinks holds one around both *)
+Example C13_ex_comb :
+  let e := XLock (XAddSync (XLock (XLeaf 1 true 5 [] []))) in
+  let c := XCombine [XLeaf 1 true 2 [7] []; XAddSync (XLeaf 2 false 5 [] [])] in
+  x_typed e = true /\ x_dom (zlen hello) e = true /\ eval e = Locked (Leaf 1 true 5 [] []) /\
+  ref_write e hello 0 = (5, [], [obs_w 1 hello 1]) /\
+  x_typed c = true /\ x_dom (zlen hello) c = true /\
+  ref_write c hello 0 = (2, [7], [obs_w 1 hello 1; obs_w 2 hello 1]) /\
+  ref_sync c 0 = ([], [obs_s 1 1]).
+Proof. vm_compute. repeat split. Qed.
+(* a complete schedule of two threads: both calls done, never more than one in flight *)
+Example C13_ex_lock :
+  let prog := [[0; 1]; [0]] in
+  let s := run (locked_prog prog) [0%nat; 1%nat; 0%nat; 0%nat; 0%nat; 1%nat; 1%nat; 1%nat; 0%nat; 1%nat; 0%nat; 0%nat; 0%nat] in
+  fin s = total_calls prog /\ maxc s = 1%nat.
+Proof. vm_compute. split; reflexivity. Qed.
+(* valid cases of every kind exist *)
+Example C13_ex_wf :
+  wf (SL [SZ 1; SL [SZ 4; SL [SL [SZ 0; SZ 1; SZ 1; SZ 0; SL []; SL []]; SL [SZ 0; SZ 2; SZ 1; SZ 5; SL []; SL []]]]; SB hello]) = true /\
+  wf (SL [SZ 2; SZ 0; SZ 1; SB sp_hello_nl; SB hello]) = true /\
+  wf (SL [SZ 2; SZ 3; SZ 4; SL [SL [SZ 0; SB hello]; SL [SZ 1]]]) = true /\
+  wf (SL [SZ 3; SL [SL [SZ 0]]; SL [SZ 0; SZ 0; SZ 0; SZ 0]]) = true.
+Proof. vm_compute. repeat split. Qed.
